@@ -427,10 +427,12 @@ impl Scenario for C05 {
                         }
                     }
                     drop(p);
-                    rt::wait_threads_exit();
+                    // whether and when its workers go away is not this property's business
                 }
                 rt::log(Kind::Note, 6, count as u64);
             }
+            // threads of earlier pipes are not waited for at the end
+            let first_thread = rt::threads_registered();
             let seen = Arc::new(Gate::new());
             let src = Src {
                 next: 0,
@@ -453,7 +455,7 @@ impl Scenario for C05 {
                 };
                 rt::log(Kind::RecvEnd, vals.len() as u64, 0);
                 *res2.lock().unwrap() = vals;
-                rt::wait_threads_exit();
+                rt::wait_threads_exit_since(first_thread);
                 return;
             }
             let mut it: Box<dyn Iterator<Item = u64>> = match sc.shape {
@@ -516,7 +518,7 @@ impl Scenario for C05 {
                 rt::log(Kind::Note, 3, 0);
             }
             drop(it);
-            rt::wait_threads_exit();
+            rt::wait_threads_exit_since(first_thread);
         });
 
         let mut stats = RunStats::default();
@@ -589,11 +591,28 @@ impl C05 {
 
     fn judge(&self, r: &verif_rt::ProcResult, got: &[u64], stats: &mut RunStats) -> Option<Violation> {
         let v = |class: &str, detail: String| Some(Violation { class: class.into(), detail });
+        // threads of the observed pipe: spawned after the process history (Note 6) ended
+        let history_mark = r.events.iter().find(|e| e.kind == Kind::Note && e.a == 6).map(|e| e.step);
+        let history_end = history_mark.unwrap_or(0);
+        if self.earlier.is_some() && r.status == Status::Livelock {
+            // Threads that earlier pipes left behind (not this property's business: that is C09)
+            // share the step budget of the run. If such threads are still running when the budget
+            // ends, the run says nothing about the observed pipe.
+            let leftovers = match history_mark {
+                None => !r.live_threads().is_empty(),
+                Some(m) => r.live_threads().iter().any(|t| t.spawn_step < m),
+            };
+            if leftovers {
+                stats.probe("inconclusive_step_budget_used_up_by_threads_of_earlier_pipes", 1);
+                return None;
+            }
+        }
+        let live_observed = || -> Vec<String> { r.live_threads().iter().filter(|t| t.spawn_step >= history_end).map(|t| t.name.clone()).collect() };
         match &r.status {
             Status::Completed => {}
             Status::ReplayDiverged => return None,
             s => {
-                let live: Vec<String> = r.live_threads().iter().map(|t| t.name.clone()).collect();
+                let live = live_observed();
                 return v(
                     &format!("no-termination:{}", s.class()),
                     format!("run ended as {:?}; received {}/{} items; threads still alive: {:?}", s, got.len(), self.n, live),
@@ -706,8 +725,8 @@ impl C05 {
         }
         // (the number of end-of-stream probes is not part of the property: reported only)
         stats.probe_max("max_end_of_stream_probes", pull_end as u64);
-        if !r.live_threads().is_empty() {
-            return v("no-termination:threads-alive", format!("threads alive after the stream ended: {:?}", r.live_threads().iter().map(|t| &t.name).collect::<Vec<_>>()));
+        if !live_observed().is_empty() {
+            return v("no-termination:threads-alive", format!("threads alive after the stream ended: {:?}", live_observed()));
         }
         if out_of_order {
             stats.probe("runs_with_out_of_order_completion", 1);
